@@ -201,10 +201,7 @@ class TridonicDALIUSBDriver(DALIDriver):
     def _get_sn(self):
         """Get next sequence number."""
         sn = self._next_sn
-        if sn > 255:
-            sn = self._next_sn = 1
-        else:
-            self._next_sn += 1
+        self._next_sn = sn + 1 if sn < 255 else 1
         return sn
 
 
